@@ -76,7 +76,7 @@ def _task_runs(args):
   out = []
   for i in indices:
     rs = rng_lib.run_seed(verif_seed, prop, i)
-    faulthandler.dump_traceback_later(240, exit=True)
+    faulthandler.dump_traceback_later(900, exit=True)
     try:
       r = engine.run_one(prop, rs, tier=tier, want_samples=(i in sample_idx))
       r["index"] = i
@@ -208,10 +208,10 @@ def main(argv=None):
                       det_indices[half:], tier, 977, repo),
         ]
       while pending:
-        done, _ = cf.wait(list(pending), timeout=600,
+        done, _ = cf.wait(list(pending), timeout=1200,
                           return_when=cf.FIRST_COMPLETED)
         if not done:
-          harness_errors.append("no worker progress for 600 s")
+          harness_errors.append("no worker progress for 1200 s")
           break
         for f in done:
           c = pending.pop(f)
